@@ -1,5 +1,6 @@
 # plan of the property files (executed by mkprops.py)
-SK = "ProofsSkinny.v"; MA = "ProofsMantis.v"; CT = "ProofsCtr.v"; CP = "ProofsCpu.v"
+SK = "ProofsSkinny.v"; MA = "ProofsMantis.v"; CT = "ProofsCtr.v"; CP = "ProofsCpu.v"; AC = "ProofsApiCtr.v"
+API = ["Api", "ProofsSkinny", "ProofsMantis", "ProofsCtr", "ProofsApiCtr"]
 BASE = ["Bits", "SpecSkinny", "SpecMantis", "ModelCipher", "ModelCtr", "ModelCpu"]
 
 prop("C01", "SKINNY block encryption/decryption conform to the specification",
@@ -77,19 +78,22 @@ hand("counter_block_value", """: forall (bs : nat) (b : list byte) (n : nat),
   length b = n -> n <= bs -> be_value (zeros (bs - n) ++ b) = be_value b""")
 
 prop("C05", "CTR output = input xor E(c),E(c+1),... however the calls split the data",
-     BASE + ["ProofsCtr"],
-     [(CT, "ctr_refinement"), (CT, "set_counter_fresh"), (CT, "set_counter_reject"), (CT, "counter_block_value"),
+     BASE + API,
+     [(AC, "api_ctr128_stream"), (AC, "api_ctr64_stream"), (AC, "api_mctr_stream"), (CT, "ctr_refinement"), (CT, "set_counter_fresh"), (CT, "set_counter_reject"), (CT, "counter_block_value"),
       (CT, "ctr_split_independent"), (CT, "ctr_involution"),
       (CT, "inc_counter_is_add"), (CT, "inc_counter_value"), (CT, "be_value_be_bytes"), (CT, "be_bytes_be_value"),
       (CT, "ctr_add_add"), (CT, "ctr_add_0"), (CT, "ctr_add_length")])
 
 prop("C07", "parallel ECB equals block-by-block ECB for every block count",
-     BASE + ["ProofsCtr"],
-     [(CT, "par_crypt_spec"), (CT, "par_crypt_indep"), (CT, "blocks_concat"), (CT, "blocks_length")])
+     BASE + API,
+     [(AC, "api_par128_enc"), (AC, "api_par128_dec"), (AC, "api_par64_enc"), (AC, "api_par64_dec"), (AC, "api_mpar_crypt"),
+      (CT, "par_crypt_spec"), (CT, "par_crypt_indep"), (CT, "blocks_concat"), (CT, "blocks_length")])
 
 prop("C03", "decryption inverts encryption through every entry point",
-     BASE + ["ProofsSkinny", "ProofsMantis", "ProofsCtr"],
-     [(SK, "skinny128_dec_enc"), (SK, "skinny128_enc_dec"), (SK, "skinny64_dec_enc"), (SK, "skinny64_enc_dec"),
+     BASE + API,
+     [(AC, "m128_keyed_roundtrip"), (AC, "m64_keyed_roundtrip"), (AC, "par128_roundtrip"), (AC, "par64_roundtrip"),
+      (AC, "mpar_roundtrip"),
+      (SK, "skinny128_dec_enc"), (SK, "skinny128_enc_dec"), (SK, "skinny64_dec_enc"), (SK, "skinny64_enc_dec"),
       (SK, "skinny128_tweaked_dec_enc"), (SK, "skinny128_tweaked_enc_dec"),
       (SK, "skinny64_tweaked_dec_enc"), (SK, "skinny64_tweaked_enc_dec"),
       (MA, "mantis_dec_enc"), (MA, "mantis_enc_dec"),
@@ -97,5 +101,61 @@ prop("C03", "decryption inverts encryption through every entry point",
       (MA, "swap_is_rekey"), (MA, "swap_tweak_history"), (CT, "par_crypt_spec")])
 
 prop("C06", "generic and SIMD back ends are observably identical",
-     BASE + ["ProofsCtr"],
-     [(CT, "ctr_refinement"), (CT, "rekey_restarts"), (CT, "par_crypt_indep")])
+     BASE + API,
+     [(AC, "api_ctr128_backend_independent"), (AC, "api_ctr64_backend_independent"), (AC, "api_mctr_backend_independent"),
+      (AC, "api_par128_enc"), (AC, "api_par128_dec"), (AC, "api_par64_enc"), (AC, "api_par64_dec"), (AC, "api_mpar_crypt"),
+      (CT, "par_crypt_indep"), (CT, "rekey_restarts"), (AC, "c06_unrestricted_refuted"), (AC, "c06_backends")])
+
+AH = "ProofsApiHeap.v"; JK = "ProofsJunk.v"
+prop("C11", "results are a function of API inputs only",
+     BASE + API + ["ProofsJunk"],
+     [(JK, "m128_prior_content_irrelevant"), (JK, "m64_prior_content_irrelevant"), (JK, "mantis_prior_content_irrelevant"),
+      (JK, "ctr_init_prior_content_irrelevant"), (JK, "m128_keyed_is_spec"), (JK, "m64_keyed_is_spec"),
+      (SK, "m128_set_key_padding"), (SK, "m64_set_key_padding")])
+
+prop("C15", "object life cycle: init/cleanup in any order is safe, leak-free, idempotent",
+     BASE + ["Api", "ProofsApiHeap"],
+     [(AH, "heapinv_init"), (AH, "heapinv_step"), (AH, "heapinv_run"), (AH, "free_is_of_owned_live_block"),
+      (AH, "cleanup_inert_noop"), (AH, "cleanup_releases"), (AH, "no_leak"), (AH, "no_leak_run"),
+      (AH, "reinit_after_cleanup"), (AH, "inert_object_rejects")])
+
+prop("C16", "allocation failure during initialisation is reported cleanly",
+     BASE + ["Api", "ProofsApiHeap"],
+     [(AH, "init_alloc_failure"), (AH, "inert_object_rejects"), (AH, "cleanup_inert_noop"), (AH, "reinit_after_cleanup")])
+
+prop("C17", "cleanup erases all key-dependent state before releasing it",
+     BASE + ["Api", "ProofsApiHeap"],
+     [(AH, "every_free_is_wiped"), (AH, "free_is_of_owned_live_block"), (AH, "cleanup_releases")])
+
+prop("C09", "buffer contract: exact extents, any alignment, documented overlap",
+     BASE + API,
+     [(AC, "m128_encrypt_length"), (AC, "m128_decrypt_length"), (AC, "m64_encrypt_length"), (AC, "m64_decrypt_length"),
+      (AC, "mantis_crypt_length"), (AC, "mantis_crypt_tweaked_length"),
+      (AC, "api_ctr128_stream"), (AC, "api_ctr64_stream"), (AC, "api_mctr_stream"),
+      (AC, "api_par128_enc"), (AC, "api_par128_dec"), (AC, "api_par64_enc"), (AC, "api_par64_dec"), (AC, "api_mpar_crypt")])
+
+prop("C12", "build-configuration independence: every compile-time path computes the same",
+     BASE + API + ["ProofsJunk"],
+     [(SK, "m128_set_key_spec"), (SK, "m64_set_key_spec"), (MA, "mantis_model_spec"),
+      (SK, "c04_tweak_history128"), (SK, "c04_tweak_history64"),
+      (AC, "api_ctr128_stream"), (AC, "api_ctr64_stream"), (AC, "api_mctr_stream"),
+      (AC, "api_par128_enc"), (AC, "api_par128_dec"), (AC, "api_par64_enc"), (AC, "api_par64_dec"), (AC, "api_mpar_crypt")])
+
+hand("crypt_total_any", """: forall (K : Type) (E : K -> list byte -> list byte) (bs B : nat),
+  0 < bs -> 0 < B -> (forall (k : K) (blk : list byte), length (E k blk) = bs) ->
+  forall (st : ctr K) (d : list byte), exists (st' : ctr K) (o : list byte), crypt K E bs B st d = Some (st', o)""")
+prop("C08", "constant-time: control decisions of the model depend on public parameters only (partial; see MANIFEST)",
+     BASE + API,
+     [(CT, "crypt_total_any"), (CT, "set_counter_reject"), (SK, "m128_set_key_reject"), (SK, "m64_set_key_reject"),
+      (SK, "m128_set_tweak_reject"), (SK, "m64_set_tweak_reject"), (MA, "mantis_set_key_reject"),
+      (AC, "api_ctr128_stream"), (AC, "api_par128_enc")])
+
+AE = "ProofsApiErr.v"
+prop("C14", "error contract: invalid calls return 0 and change nothing",
+     BASE + ["Api", "ProofsApiErr"],
+     [(AE, "invalid_changes_nothing"), (AE, "valid_returns_1"), (AE, "history_without_invalid"),
+      (AE, "illtyped_is_bad"), (AE, "welltyped_no_bad")])
+prop("C18", "thread safety: no hidden shared state; read-only objects may be shared",
+     BASE + ["Api", "ProofsApiErr"],
+     [(AE, "readonly_same_world"), (AE, "step_respects_weq"), (AE, "distinct_objects_commute"),
+      (AE, "interleaving_independent")])
